@@ -65,6 +65,7 @@ class Ctl:
     def reset(self, chooser, mode):
         self.chooser, self.mode = chooser, mode         # mode: off | action | line
         self.state, self.pending = {}, {}
+        self.blocked = {}
         self.turn = None
         self.log = []                                   # (tid, label, info)
         self.decisions = []                             # (enabled tuple, chosen, current)
@@ -81,10 +82,11 @@ class Ctl:
     def atomic(self):
         return getattr(self.tls, "atomic", 0)
 
-    def _park(self, tid, label):
+    def _park(self, tid, label, blocked_on=None):
         with self.cv:
             self.state[tid] = "parked"
             self.pending[tid] = label
+            self.blocked[tid] = blocked_on                  # a guard proxy the thread waits for (not enabled while it is held)
             self.cv.notify_all()
             while self.turn != tid:
                 if not self.cv.wait(timeout=20):
@@ -127,9 +129,12 @@ class Ctl:
                                       all(v in ("parked", "done") for v in self.state.values()), timeout=30)
                 if not ok:
                     raise Deadlock(f"threads did not quiesce: {self.state} pending={self.pending}")
-                enabled = tuple(sorted(t for t, v in self.state.items() if v == "parked"))
-                if not enabled:
+                parked = tuple(sorted(t for t, v in self.state.items() if v == "parked"))
+                enabled = tuple(t for t in parked if self.blocked.get(t) is None or not self.blocked[t].real.locked())
+                if not parked:
                     return
+                if not enabled:
+                    raise Deadlock(f"every request waits for a guard: {self.pending}")
                 ch = self.chooser(enabled, self.pending, self.current, len(self.choices))
                 self.decisions.append((enabled, ch, self.current))
                 self.choices.append(ch)
@@ -155,16 +160,26 @@ class GuardProxy:
         if tid is not None and CTL.mode != "off" and not CTL.atomic():
             if CTL.mode == "action":
                 CTL._park(tid, "G")
-            CTL.tls.section = {"entry": None}
-            CTL.tls.atomic = CTL.atomic() + 1
+                CTL.tls.section = {"entry": None, "atomic": True}
+                CTL.tls.atomic = CTL.atomic() + 1
+                self.real.acquire()
+            else:
+                # line mode: the request may be parked while it holds the guard; a request that finds the guard taken
+                # waits as "blocked" (the scheduler does not pick it) — two DIFFERENT guard objects do not exclude each other
+                while not self.real.acquire(False):
+                    CTL._park(tid, ("guard-wait", 0), blocked_on=self)
+                CTL.tls.section = {"entry": None, "atomic": False}
+            return self
         self.real.acquire()
         return self
 
     def __exit__(self, *exc):
         self.real.release()
-        if getattr(CTL.tls, "section", None) is not None:
+        sec = getattr(CTL.tls, "section", None)
+        if sec is not None:
             CTL.tls.section = None
-            CTL.tls.atomic = CTL.atomic() - 1
+            if sec.get("atomic"):
+                CTL.tls.atomic = CTL.atomic() - 1
         return False
 
     def acquire(self, *a, **kw):
@@ -189,8 +204,11 @@ class GuardProxy:
         return self.real.locked()
 
 
-def lock_flag_access(write, v):
-    """one access to session_state["lock"] by a request thread, recorded at the access itself"""
+def lock_flag_access(write, v, cur=None):
+    """one access to the lock flag by a request thread, recorded at the access itself (`cur`: the value a read will see).
+    Inside a guard the test and the set are one `TAS`; it takes effect where it is decided: a test that finds the flag set is
+    a refusal at the read, a test that finds it free counts when the set happens (another request's unguarded look at the
+    flag in between still sees it free)."""
     tid = CTL.tid()
     if tid is None or CTL.mode == "off":
         return
@@ -201,11 +219,18 @@ def lock_flag_access(write, v):
         else:
             CTL.visible("SL" if v else "CL", folded=True)
     elif not write:
-        if sec["entry"] is None:
-            sec["entry"] = [tid, "TAS", False, False]
-            CTL.log.append(sec["entry"])
+        if sec["entry"] is None and not sec.get("tested"):
+            if cur:
+                sec["entry"] = [tid, "TAS", False, False]
+                CTL.log.append(sec["entry"])
+            else:
+                sec["tested"] = True                          # free: the TAS is logged when it sets
+    elif v and sec.get("tested") and sec["entry"] is None:
+        sec["entry"] = [tid, "TAS", True, False]
+        CTL.log.append(sec["entry"])
+        CTL.log.append([tid, "SL", None, True])
     elif v and sec["entry"] is not None and sec["entry"][1] == "TAS":
-        sec["entry"][2] = True                                # the set half of the test-and-set
+        sec["entry"][2] = True
         CTL.log.append([tid, "SL", None, True])
     else:
         sec["entry"] = [tid, "SL" if v else "CL", None, False]   # a write without a test under the same guard
@@ -218,12 +243,12 @@ class RecDict(dict):
         if k == "step":
             CTL.visible("RS")
         elif k == "lock":
-            lock_flag_access(False, None)
+            lock_flag_access(False, None, cur=dict.get(self, "lock", False))
         return dict.__getitem__(self, k)
 
     def get(self, k, d=None):
         if k == "lock":
-            lock_flag_access(False, None)
+            lock_flag_access(False, None, cur=dict.get(self, "lock", False))
         return dict.get(self, k, d)
 
     def __setitem__(self, k, v):
@@ -261,6 +286,29 @@ class World:
         self.followups = True
         self.flag_attr = self._find_flag()               # None: the flag is session_state["lock"]; else the attribute's name
         self._instrument()
+
+    def fresh(self, restore=False):
+        """a NEW instance of the same server whose lock has never been used (optionally with its session put in place the way
+        a restore does it: _set_state); becomes the instance under test"""
+        r = self.client.post("/start-instance", json={"timeout": {"weeks": 0, "days": 0, "hours": 1, "minutes": 0, "seconds": 0,
+                                                                  "milliseconds": 0, "microseconds": 0}})
+        self.id = json.loads(r.data)["instance_uuid"]
+        self.inst = self.app._instance_manager._instances[self.id]["instance"]
+        self.fresh_ids = getattr(self, "fresh_ids", []) + [self.id]
+        self._instrument_instance()
+        self.restore_mode = restore
+
+    def prepare_fresh(self, stop):
+        import copy
+        if getattr(self, "restore_mode", False):
+            st = copy.deepcopy(self.template_state)
+            st["lock"] = False
+            type(self.inst)._set_state(self.inst, st)
+        else:
+            assert self._begin().status_code == 200
+        st = RecDict(self.inst.session_state)
+        dict.__setitem__(st, "stoptime", GRID["start"] + float(stop) * GRID["dt"])
+        self.inst.session_state = st
 
     def _begin(self):
         return self.client.post(f"/{self.id}/begin-session",
@@ -329,28 +377,47 @@ class World:
         the label: read [+ write True] = `TAS`, a bare write = `SL` / `CL`.  Accesses outside a guard are `RL` / `SL` / `CL`
         actions of their own, so an `is_locked()` in front of the guard and a `lock()` inside it are two actions the
         scheduler can separate."""
+        self._instrument_instance()
+        self._instrument_runner()
+
+    def _instrument_instance(self):
         inst = self.inst
         cls = type(inst)
+        world = self
         self.guards = []
         for k, v in list(vars(inst).items()):
             if isinstance(v, LOCK_TYPE):
                 g = GuardProxy(v, "flag" if (self.flag_kind == "lockobj" and k == self.flag_attr) else "guard")
-                setattr(inst, k, g)
+                inst.__dict__[k] = g
                 self.guards.append(k)
+
+        def hooked_setattr(obj, k, v):                    # a guard created later (lazily) is a guard as well
+            if isinstance(v, LOCK_TYPE):
+                v = GuardProxy(v, "guard")
+                world.guards.append(k)
+                world.late_guards.append(k)
+            object.__setattr__(obj, k, v)
+        self.late_guards = []
+        members = {"__setattr__": hooked_setattr}
         if self.flag_kind == "attr":                     # the flag is an attribute: record it through a property
             name = self.flag_attr
 
             def fget(obj):
-                lock_flag_access(False, None)
+                cur = obj.__dict__.get("_rec_" + name, False)
+                lock_flag_access(False, None, cur=cur)
                 return obj.__dict__.get("_rec_" + name, False)
 
             def fset(obj, v):
                 lock_flag_access(True, v)
                 obj.__dict__["_rec_" + name] = v
             val = inst.__dict__.pop(name)
-            inst.__class__ = type(cls.__name__, (cls,), {name: property(fget, fset)})
             inst.__dict__["_rec_" + name] = val
+            members[name] = property(fget, fset)
+        base = cls if not getattr(cls, "_c18_recording", False) else cls.__mro__[1]
+        members["_c18_recording"] = True
+        inst.__class__ = type(base.__name__, (base,), members)
 
+    def _instrument_runner(self):
         runner = self.bmod.SdRunner
         self._orig_sim = runner.run_scenario_step          # restored on close (may be the wrapper of another World)
         orig = getattr(self._orig_sim, "_c18_orig", self._orig_sim)
@@ -562,11 +629,11 @@ class Scn:
         return {"stop": self.stop, "kinds": self.kinds, "fail": self.fail, "gone": self.gone}
 
 
-def execute(world, scn, mode, prefix=(), switches=None, chooser=None):
+def execute(world, scn, mode, prefix=(), switches=None, chooser=None, prepare=None):
     """Run the scenario under the scheduler.  action mode: follow `prefix` (thread ids), then the default
     policy (stay on the current thread, else the lowest enabled id).  line mode: `switches` = list of
     (line-step index, thread id): at that global line step switch to that thread; otherwise stay."""
-    world.reset(scn.stop)
+    (prepare or world.reset)(scn.stop)
     n = len(scn.kinds)
     if chooser is not None:
         pass
@@ -954,6 +1021,61 @@ def direct_search(world):
                 yield scn, execute(world, scn, "line", chooser=chooser)
 
 
+# ------------------------------------------------------------------------------------------- first use of the lock (wave 10)
+def first_use_chooser(k, j):
+    """request 0 executes k lines of bptk.try_lock, request 1 executes j lines of it (it may stay parked INSIDE the guard),
+    request 0 runs on until it is inside its first simulation call (or has ended), request 1 runs to its end, the rest."""
+    st = {"phase": 0, 0: 0, 1: 0}
+
+    def in_try_lock(p):
+        return isinstance(p, tuple) and p[0] == "bptk.try_lock"
+
+    def chooser(enabled, pending, current, kk):
+        while True:
+            ph = st["phase"]
+            if ph in (0, 1):
+                t, lim = ph, (k if ph == 0 else j)
+                if t in enabled and st[t] < lim:
+                    if in_try_lock(pending.get(t)):
+                        st[t] += 1
+                    return t
+                st["phase"] += 1
+            elif ph == 2:
+                if 0 in enabled and not any(t == 0 and l == "SIM" for t, l, i, f in CTL.log):
+                    return 0
+                st["phase"] = 3
+            elif ph == 3:
+                if 1 in enabled:
+                    return 1
+                st["phase"] = 4
+            else:
+                return current if current in enabled else enabled[0]
+    return chooser
+
+
+def first_use_runs(world, quick):
+    """two contenders on a FRESH instance (no try_lock has run on it) and on a just-restored one, pairs of stop points at every
+    line of bptk.try_lock (before the guard is taken and inside it); (scn, rec, tag)"""
+    TRACER.setup()
+    nl = len([1 for (name, ln) in TRACER.src if name == "bptk.try_lock"])
+    old = (world.id, world.inst, world.guards)
+    combos = [((("p", 0), ("p", 0)), False), ((("s", 0), ("r", 2)), False), ((("p", 0), ("p", 0)), True)]
+    if not quick:
+        combos += [((("s", 0), ("r", 2)), True), ((("r", 2), ("s", 0)), False)]
+    try:
+        for (a, b), restore in combos:
+            for k in range(0, nl + 1):
+                for j in range(1, nl + 1):
+                    world.fresh(restore)
+                    scn = Scn(1, [a, b])
+                    rec = execute(world, scn, "line", chooser=first_use_chooser(k, j), prepare=world.prepare_fresh)
+                    if world.is_locked_now():
+                        world.flag_force(False)
+                    yield scn, rec, {"fresh": True, "restore": restore, "k": k, "j": j}
+    finally:
+        world.id, world.inst, world.guards = old
+
+
 # ------------------------------------------------------------------------------------------- thread programs by tracing
 class TraceDict(dict):
     """session_state of the stub: every access to the lock flag and to the session clock is recorded."""
@@ -1029,6 +1151,10 @@ class StubInstance:
                     g = _th.Lock()
                     setattr(self, k, g)
                     self._guards.append(g)
+        for k, v in vars(world.inst).items():           # plain attributes the class code expects (e.g. a guard not yet created)
+            if k not in self.__dict__ and not k.startswith("_rec_") and (v is None or isinstance(v, (bool, int, float, str))) \
+                    and k != getattr(world, "flag_attr", None):
+                self.__dict__[k] = v
         self.scenario_manager_factory = world.inst.scenario_manager_factory
         self.trace = []                       # [label, (code name, line)]
         self.folding, self.folded = False, []
@@ -1076,7 +1202,7 @@ class StubInstance:
             self.trace.append([label, self.cur])
 
     def lock_access(self, rw, v):
-        guarded = any(g.locked() for g in self._guards)
+        guarded = any(v.locked() for v in self.__dict__.values() if isinstance(v, LOCK_TYPE) and v is not self._lockobj)
         if guarded:
             if rw == "R":
                 self._tas = [len(self.trace)]
@@ -1484,7 +1610,7 @@ def session_run(world, kind, stop, k, which, ename, fail, gone, nosession):
                     st["a_steps"] += 1
                     p = pending.get(0)
                     txt = TRACER.src.get(p, "") if isinstance(p, tuple) else ""
-                    if (isinstance(p, tuple) and p[0] == "bptk.try_lock" and (txt.startswith("with ") or ".acquire(" in txt)) or \
+                    if (isinstance(p, tuple) and p[0] == "bptk.try_lock" and txt.startswith("return")) or \
                             (not world.has_try_lock and isinstance(p, tuple) and ".lock()" in txt):
                         st["a_tried"] = True                 # after this step the guarded section has run
                     if isinstance(p, tuple) and p[0] == "bptk.unlock":
@@ -1627,7 +1753,11 @@ def judge_session_run(r):
     a_in_progress = r["a_tried_before"] and not _refused_as_locked(a)
     a_unfinished = not r["a_done_before"]
     c_stepped = any(l[0] == 1 and l[1] in ("SIM", "WS") for l in r["log"])
-    if a_in_progress and a_unfinished and not _refused_as_locked(c) and c_stepped:
+    c_acq = next((i for i, l in enumerate(r["log"]) if l[0] == 1 and (l[1] == "SL" or (l[1] == "TAS" and l[2]))), None)
+    a_idx = [i for i, l in enumerate(r["log"]) if l[0] == 0]
+    a_rel = next((i for i, l in enumerate(r["log"]) if l[0] == 0 and l[1] == "CL" and i >= (r["at"] or 0)), a_idx[-1] if a_idx else -1)
+    overlapped = c_acq is None or c_acq < a_rel              # the run-step really got in before request 0 let go
+    if a_in_progress and a_unfinished and not _refused_as_locked(c) and c_stepped and overlapped:
         out.append(("session-request-resets-lock",
                     f"{r['which']}-session arrived while request 0 ({r['scn'].kinds_str().split(',')[0]}) was in progress "
                     f"(after {r['k']} of its actions{', started without a session' if r['nosession'] else ''}); the run-step that arrived next was "
@@ -2019,7 +2149,7 @@ def gen_sessions(sf):
     return t, mutex_ok, leak_free
 
 
-def gen_lean(f, progs=(), sf=None, shape=None, invalid_ok=True):
+def gen_lean(f, progs=(), sf=None, shape=None, invalid_ok=True, lazy_guard=False):
     b = lambda x: "true" if x else "false"
     cfg = ", ".join(f"{k} := {b(f[k])}" for k in FACTS)
     body = ""
@@ -2043,6 +2173,8 @@ def gen_lean(f, progs=(), sf=None, shape=None, invalid_ok=True):
     body += ("theorem holds_solo (stop : Nat) (k : Kind) (sched : Schedule) :\n"
              "    ClMutex cfg (run cfg (State.init stop [k]) sched) ∧ ClConsec (run cfg (State.init stop [k]) sched) := C18_solo cfg stop k sched\n"
              "#print axioms holds_solo\n#print axioms C18_partial\n")
+    if lazy_guard and not f["lockIsTestAndSet"]:
+        body += ("theorem violated_lazy_guard : ¬ C18_full cfg := C18_witness_lazy_guard cfg (by decide)\n#print axioms violated_lazy_guard\n")
     if sf is not None:
         body += gen_sessions(sf)[0]
     if shape is not None:
@@ -2077,6 +2209,22 @@ def _run(chk, world):
     chk.notes["cfg"] = {k: facts[k] for k in FACTS}
     chk.notes["solo_action_labels"] = facts["_solo_labels"]
     chk.notes["refused_request_labels"] = facts["_refusal_labels"]
+    sfacts = probe_sessions(world)
+    # first use of the lock: two contenders on a fresh / just-restored instance, stop points at every line of try_lock
+    _tf = _t.time()
+    fcases = []
+    first_use_bad = None
+    for scn, rec, tag in first_use_runs(world, chk.quick):
+        rec["fresh"] = tag
+        fcases.append((scn, rec, "line"))
+        if first_use_bad is None and any(k == "lock-check-then-act" for k, _ in reference(scn, rec)):
+            first_use_bad = tag
+    lazy = sorted(set(getattr(world, "late_guards", [])))
+    chk.notes["first_use"] = {"runs": len(fcases), "guards_created_after_construction": lazy, "two_contenders_both_accepted_at": first_use_bad,
+                              "wall_s": round(_t.time() - _tf, 1)}
+    if first_use_bad is not None:
+        facts["lockIsTestAndSet"] = False            # the fact covers the first use
+        chk.notes["cfg"] = {k: facts[k] for k in FACTS}
     # thread programs derived by tracing: each handler alone, under sys.settrace, against the recording stub
     progs = trace_programs(world)
     obls = program_obligations(progs, facts)
@@ -2085,7 +2233,6 @@ def _run(chk, world):
     chk.cov["traced_handler_lines"] = sum(o["lines"] for o in progs)
     stub_facts = facts_from_programs({o["name"]: o for o in progs})
     chk.notes["cfg_from_traced_programs"] = stub_facts
-    sfacts = probe_sessions(world)
     chk.notes["session_cfg"] = {k: sfacts[k] for k in SFACTS}
     chk.notes["session_cfg_detail"] = sfacts["_detail"]
     shp = streamer_shape()
@@ -2098,7 +2245,7 @@ def _run(chk, world):
     chk.notes["body_adapter_wall_s"] = round(_t.time() - _tb, 1)
     invalid_ok = stub_facts["_invalidRequestHoldsNothing"] and not any(k == "invalid-request-leaves-lock" for k, _ in bfind)
     chk.notes["invalidRequestHoldsNothing"] = invalid_ok
-    ok, why = chk.prove(gen_lean(facts, obls, sfacts, shape, invalid_ok))
+    ok, why = chk.prove(gen_lean(facts, obls, sfacts, shape, invalid_ok, bool(lazy)))
     chk.cov["trusted_base"] = [
         "Lean 4.33 kernel; axioms propext, Classical.choice, Quot.sound (audited per run via #print axioms)",
         "thread programs of lean/Bptk/Core/C18.lean (run-step / run-steps / stream-steps handlers, bptk.run_step, lock/unlock/is_locked/try_lock) at the granularity of accesses to the lock flag, the session clock, the simulation call and the chunks handed to the client; tied to /repo by the six probed mechanism facts, by the per-run obligations prog_* (the accesses recorded from each handler run alone under sys.settrace against a recording stub — completion, error, client-gone, refusal and stop-time paths — equal the model's program, decided in the kernel) and by the label-by-label and outcome comparison of every forced schedule",
@@ -2111,7 +2258,7 @@ def _run(chk, world):
         "session requests (begin-session, end-session, restore) are modelled by the session machine (Bptk.C18.Sess) only as far as the lock is concerned: a request is pre / holding / ended there; what a session request does to the clock and to the steps of a running request (a response mixing two sessions) is not part of the statement",
     ]
     two, extra, three = scenarios(chk)
-    cases = [(scn, rec, "action") for scn, rec in facts["_runs"]]                      # (scn, rec, mode)
+    cases = [(scn, rec, "action") for scn, rec in facts["_runs"]] + fcases              # (scn, rec, mode)
     dist = {}
     differing = [o["name"] for o in obls if not o["ok"]] + [k for k in FACTS if stub_facts.get(k) is not None and stub_facts[k] != facts[k]]
     if differing:
@@ -2175,14 +2322,14 @@ def _run(chk, world):
         total = len(base["choices"])
         pts = list(range(1, total))
         if chk.quick:
-            pts = sorted(rng.shuffle(pts)[:12])
+            pts = sorted(rng.shuffle(pts)[:8])
         for a in pts:
             for first in (0, 1):
                 sw = [(0, first), (a, 1 - first)]
                 if not chk.quick or rng.chance(1, 2):
                     cases.append((scn, execute(world, scn, "line", switches=sw), "line"))
                     nline += 1
-        for _ in range(6 if chk.quick else 150):
+        for _ in range(3 if chk.quick else 150):
             a = rng.range(1, max(1, total - 2)); b = rng.range(a + 1, total + 5); c = rng.range(b + 1, total + 20)
             first = rng.below(2)
             sw = [(0, first), (a, 1 - first), (b, first), (c, 1 - first)]
@@ -2417,7 +2564,7 @@ def _run(chk, world):
 
 
 def replay_of(scn, rec, mode, text):
-    return {"scenario": scn.to_json(), "mode": mode,
+    return {"scenario": scn.to_json(), "mode": mode, "fresh": rec.get("fresh"),
             "choices": rec["choices"] if mode == "action" else None,
             "switches": [(k, ch) for k, (en, ch, cur) in enumerate(rec["decisions"]) if ch != cur] if mode == "line" else None,
             "actions": [f"{t}:{l}" for t, l, i, f in rec["log"] if not f],
@@ -2460,12 +2607,17 @@ def replay(path):
     if r.get("grid"):
         GRID.update(r["grid"])
     world = World()
+    prep = None
+    if r.get("fresh"):
+        probe_sessions(world)
+        world.fresh(r["fresh"]["restore"])
+        prep = world.prepare_fresh
     try:
         if r["mode"] == "action":
             rec = execute(world, scn, "action", tuple(r["choices"]))
         else:
             TRACER.setup()
-            rec = execute(world, scn, "line", switches=[tuple(x) for x in r["switches"]])
+            rec = execute(world, scn, "line", switches=[tuple(x) for x in r["switches"]], prepare=prep)
     finally:
         world.close()
     v = reference(scn, rec)
